@@ -101,19 +101,21 @@ def explore(ck, cfg, maxlen, mode_args):
     ya = mode_args[mode_args.index("--yield-at") + 1] if "--yield-at" in mode_args else "before"
     for r in rows:
         r["yield_at"] = ya
+        r["_args"] = mode_args
     if rc != 0:
-        m = re.search(r"CRASH signal=(\d+) choices=([\d,]*)", out + err)
+        m = re.search(r"CRASH signal=(\d+) choices=([\d,]*)(?: scenario=(\S+))?", out + err)
         ck.hits.append(dict(what="h_c03 (%s) failed rc=%d: %s" % (cfg, rc, (err or out)[-800:]), key="crash:" + cfg,
-                            replay=dict(harness="h_c03", config=cfg, choices=m.group(2) if m else None, yield_at=ya)))
+                            replay=dict(harness="h_c03", config=cfg, choices=m.group(2).rstrip(",") if m else None,
+                                        scenario=m.group(3) if m else None, yield_at=ya, args=mode_args)))
     return rows
 
 
 def main(ck):
     ck.assumptions = [
         "FIBER backend (sequentially consistent, cooperative); ordering effects are C04's subject",
-        "the Own.run correspondence covers pipelines of unique futures; SharedFuture sources with plain and unwrapping continuations (throwing / skipped, other handles alive) are explored with the oracle only; combinators and coroutine frames are covered by the layer (2)/(3) theorems and by the C09/C10/C13 checks' own oracles",
+        "the Own.run correspondence covers pipelines of unique futures with value-returning steps; SharedFuture sources with plain and unwrapping continuations (throwing / skipped, other handles alive) and unique pipelines with an unwrapping step whose inner future is still pending and is fulfilled / failed / dropped by a third fiber (family unwrap/) are explored with the oracle only; combinators and coroutine frames are covered by the layer (2)/(3) theorems and by the C09/C10/C13 checks' own oracles",
         "for a final DetachInline step the Detach core's own word is not named: its publication and self-release are synthesised in the replay (the oracle still checks its functor and the allocation balance)",
-        "heap misuse invisible to instance tracking, allocation balance and ASan (e.g. use of a freed block re-allocated identically) is not detected",
+        "blocks released during an execution are filled with 0xDD and kept until its end; an instrumented functor or value used or destroyed inside a released block is reported as use after free; heap misuse that touches neither an instrumented object nor the allocation balance is not detected",
     ]
     ck.cov["trusted_base"] = [
         "Coq 8.16.1 kernel + vm_compute; Print Assumptions: closed under the global context",
@@ -133,6 +135,8 @@ def main(ck):
         rows += explore(ck, "F", 2, ["--mode", "random", "--max", "40", "--seed", str(ck.seed), "--only", "/f"] + both)
         rows += explore(ck, "F", 1, ["--mode", "dfs", "--pb", "2", "--only", "shared/"])
         rows += explore(ck, "F", 1, ["--mode", "dfs", "--pb", "2", "--only", "shared/"] + after)
+        rows += explore(ck, "F", 1, ["--mode", "dfs", "--pb", "2", "--max", "4000", "--only", "unwrap/"])
+        rows += explore(ck, "F", 1, ["--mode", "dfs", "--pb", "2", "--max", "4000", "--only", "unwrap/"] + after)
     else:
         rows += explore(ck, "F", 1, ["--mode", "dfs", "--only", "/f"])
         rows += explore(ck, "F", 1, ["--mode", "dfs", "--only", "/f"] + after)
@@ -140,6 +144,8 @@ def main(ck):
         rows += explore(ck, "F", 2, ["--mode", "dfs", "--pb", "3", "--only", "/f"] + after)
         rows += explore(ck, "F", 1, ["--mode", "dfs", "--only", "shared/"])
         rows += explore(ck, "F", 1, ["--mode", "dfs", "--only", "shared/"] + after)
+        rows += explore(ck, "F", 1, ["--mode", "dfs", "--pb", "3", "--max", "200000", "--only", "unwrap/"])
+        rows += explore(ck, "F", 1, ["--mode", "dfs", "--pb", "3", "--max", "200000", "--only", "unwrap/"] + after)
         rows += explore(ck, "FA", 1, ["--mode", "dfs", "--pb", "2"])
         rows += explore(ck, "FA", 1, ["--mode", "dfs", "--pb", "2"] + after)
         rows += explore(ck, "FA", 2, ["--mode", "random", "--max", "60", "--seed", str(ck.seed), "--only", "/f"] + both)
@@ -153,11 +159,11 @@ def main(ck):
         if t["fail"]:
             ck.hits.append(dict(what="%s: %s" % (t["scenario"], t["fail"]), key=t["fail"][:50],
                                 replay=dict(harness="h_c03", scenario=t["scenario"], choices=t["choices"], trace=t["trace"],
-                                            yield_at=t.get("yield_at"))))
+                                            yield_at=t.get("yield_at"), args=t.get("_args"))))
     seen, terms, metas = set(), [], []
     seen_ev, dup_ev = set(), 0
     for t in traces:
-        if t["fail"] or t["deadlock"] or t["scenario"].startswith("shared/"):
+        if t["fail"] or t["deadlock"] or t["scenario"].startswith(("shared/", "unwrap/")):
             continue
         key = (t["scenario"], t["trace"])
         if key in seen:
@@ -225,8 +231,10 @@ def replay(ck, path):
         print(json.dumps(d, indent=1)[:3000])
         return 0
     exe, b = vlib.compile_harness(rp.get("config", "F"), [os.path.join(vlib.VERIF, "harness", "h_c03.cpp")], "c03")
-    n = len(re.findall(r"m\dk\d", rp["scenario"]))
+    n = max(1, len(re.findall(r"m\dk\d", rp["scenario"])))
+    a = rp.get("args") or []
+    pb = ["--pb", a[a.index("--pb") + 1]] if "--pb" in a else []    # the bound changes how decisions are numbered
     rows, out, err, rc = runner.run_harness(exe, ["--param", "maxlen=%d" % n, "--mode", "replay", "--exact", rp["scenario"], "--choices", rp["choices"],
-                                                  "--yield-at", rp.get("yield_at") or "before"])
+                                                  "--yield-at", rp.get("yield_at") or "before"] + pb)
     print(out)
     return 1 if rc != 0 or any(r.get("fail") for r in rows if "trace" in r) else 0
